@@ -320,6 +320,8 @@ class Ledger(Monitor):
                         break
                 if not dominated:
                     maximal.append((i, en))
+            if not maximal:  # mutual domination through merged chains: treat as unordered
+                maximal = list(enumerate(ents))
             win = maximal[-1][1]
             writers = []
             for _, en in maximal:
@@ -714,6 +716,8 @@ class Ledger(Monitor):
             for i, en in enumerate(ents):
                 if not any(k != i and o.writer != en.writer and en.writer in o.chain for k, o in enumerate(ents)):
                     maximal.append(en)
+            if not maximal:  # mutual domination through merged chains: treat as unordered
+                maximal = list(ents)
             writers = []
             for en in maximal:
                 if en.writer not in writers:
